@@ -365,9 +365,10 @@ func (c *ConcCase) Exec(t *eng.T) {
 		}
 		return bodies, shared, judge
 	}}
-	st := xplore.Explore(sc, c.Bound, c.Max, nil)
+	st := xplore.Explore(sc, c.Bound, c.Max, t.Heartbeat)
 	t.AddStates(int64(st.Schedules))
 	t.AddTransitions(int64(st.Points))
+	t.AddExtra("distinct_interleavings_executed", int64(len(st.DistinctTraces)))
 	if !st.Complete {
 		t.AddExtra("scenarios_capped", 1)
 	}
